@@ -20,6 +20,7 @@ func init() {
 		e.RSharedState()
 		e.RAddsEveryMissing()
 		e.RAddSurvives()
+		e.RDeclRemoval()
 		e.RImportRoles()
 		e.RDeadAppend()
 		e.RAliasFlow()
@@ -71,6 +72,7 @@ func init() {
 		e.RUniqueNames()
 		e.RAddsEveryMissing()
 		e.RAddSurvives()
+		e.RDeclRemoval()
 		e.RImportRoles()
 		e.RAliasFlow()
 		e.RPackageNamesOwnership()
